@@ -41,14 +41,20 @@ mod verif_driver_ops {
                 }
                 // make the instance remember a body, then reset it THROUGH THE TRAIT (what the generic resolve_tx calls)
                 let tx = tx3_tir::model::v1beta0::Tx {
-                    fees: tx3_tir::model::v1beta0::Expression::Number(200_000), references: vec![], inputs: vec![], outputs: vec![], validity: None, mints: vec![], burns: vec![],
+                    fees: tx3_tir::model::v1beta0::Expression::Number(200_000), references: vec![], inputs: vec![],
+                    outputs: vec![tx3_tir::model::v1beta0::Output {
+                        address: tx3_tir::model::v1beta0::Expression::Address(vec![0x61; 29]), datum: tx3_tir::model::v1beta0::Expression::None,
+                        amount: tx3_tir::model::v1beta0::Expression::Assets(vec![tx3_tir::model::v1beta0::AssetExpr { policy: tx3_tir::model::v1beta0::Expression::None, asset_name: tx3_tir::model::v1beta0::Expression::None, amount: tx3_tir::model::v1beta0::Expression::Number(2_000_000) }]),
+                        optional: false,
+                    }],
+                    validity: None, mints: vec![], burns: vec![],
                     adhoc: vec![], collateral: vec![], signers: None, metadata: vec![],
                 };
                 let compiled = tx3_tir::compile::Compiler::compile(&mut c, &tx3_tir::encoding::AnyTir::V1Beta0(tx));
                 let remembered = c.latest_tx_body.is_some();
                 tx3_tir::compile::Compiler::reset(&mut c);
-                if compiled.is_ok() && !remembered {
-                    witness("c20_cardano/Compiler::reset#postcondition", "reset", format!("extra_fees={extra:?}"), "compile succeeded but no body was remembered (driver premise)".into(), "a remembered body to reset");
+                if !(compiled.is_ok() && remembered) {
+                    witness("c20_cardano/Compiler::reset#postcondition", "reset", format!("extra_fees={extra:?}"), format!("driver premise failed: compile ok={} remembered={remembered}", compiled.is_ok()), "a remembered body to reset");
                 }
                 if c.config.extra_fees != extra || c.pparams.min_fee_coefficient != a || c.latest_tx_body.is_some() {
                     witness("c20_cardano/Compiler::reset#postcondition", "reset", format!("extra_fees={extra:?}"), format!("config.extra_fees={:?} remembered body present={}", c.config.extra_fees, c.latest_tx_body.is_some()), "configuration untouched, nothing remembered");
